@@ -696,6 +696,31 @@ def _comp(self, node, fr, kind):
         if rng_items is not None:
             it0 = T.mk_tuple(rng_items)
             ia = it0.single_atom()
+        rd = self._range_domain(it0) if rng_items is None else None
+        if rd is not None:
+            # [f(i) for i in range(n)], n one of a few constants: the items are evaluated once (item i under "n > i"); the
+            # value is the prefix the actual n selects
+            n_, dom_ = rd
+            items_ = []
+            try:
+                for i in range(max(dom_)):
+                    bigger = [d for d in dom_ if d > i]
+                    c_ = TRUE if len(bigger) == len(dom_) else T.mk_or([T.mk_cmp('==', n_, Term.num(d)) for d in bigger])
+                    fr.env = dict(env0)
+                    self.assign(node.generators[0].target, Term.num(i), fr, node, quiet=True)
+                    if c_.key != TRUE.key:
+                        self.pc.append(c_)
+                    try:
+                        items_.append(self.ev(node.elt, fr))
+                    finally:
+                        if c_.key != TRUE.key:
+                            self.pc.pop()
+            finally:
+                fr.env = env0
+            out_ = T.mk_tuple(items_[:dom_[0]], 'list')
+            for d in dom_[1:]:
+                out_ = T.mk_ite(T.mk_cmp('==', n_, Term.num(d)), T.mk_tuple(items_[:d], 'list'), out_)
+            return out_
 
         def unrolled(items):
             out = []
